@@ -34,6 +34,13 @@ func runConcJobs(jobs []concJob, reps int) (int, gen.Verdict) {
 			<-start
 			for r := 0; r < reps; r++ {
 				o := j.w.Options(j.level, j.w.NewGetter(), nil)
+				if (i+r)%2 == 1 {
+					// a caller that starts from the library's defaults and fills in its own settings: every value
+					// DefaultOptions() hands out is the caller's own
+					d := verify.DefaultOptions()
+					d.TrustedRoots, d.Now, d.Getter, d.GetCollateral, d.CheckRevocations = o.TrustedRoots, o.Now, o.Getter, o.GetCollateral, o.CheckRevocations
+					o = d
+				}
 				v := gen.Call(func() error { return verify.RawTdxQuote(j.raw, o) })
 				if v.Panicked() || v.Accepted() != j.accept {
 					bad[i] = &v
